@@ -371,7 +371,11 @@ func (e *SpecEnv) objVal(obj types.Object) Val {
 		g := e.c.eng.globalFor(o)
 		if g != nil {
 			p := e.c.globalAddr(g)
-			return e.c.loadAt(e.s, e.heap, p, o.Type())
+			v := e.c.loadAt(e.s, e.heap, p, o.Type())
+			if iv, ok := v.(IfaceV); ok && g.Pkg != nil && (!strings.HasPrefix(g.Pkg.Pkg.Path(), e.c.eng.modPath) || isErrVarName(g.Name())) {
+				e.c.errVarFacts(e.s, g, iv)
+			}
+			return v
 		}
 	}
 	specFail("cannot use %s in a contract", obj.Name())
